@@ -282,3 +282,56 @@ func VerifC25EvalInt64Columns() {
 		nd.Assert("c25.eval.mult", nd.And(fits, uint64(v) == lo))
 	}
 }
+
+// Unary minus over the unsigned column types. The exact negation of an
+// unsigned value always fits BIGINT unless the value exceeds 2^63.
+// Known finding (known_findings.txt): UnaryMinus.Eval negates uint8 / uint16 /
+// uint32 / uint64 values in the SIGNED type of the same width, so large values
+// wrap (TINYINT UNSIGNED 200 -> 56). Each width asserts under its own id.
+func VerifC25UnaryMinusUnsigned() {
+	k := nd.Pick("kind", 4)
+	var cell interface{}
+	var typ sql.Type
+	var mag uint64
+	switch k {
+	case 0:
+		v := nd.Uint8("v8")
+		cell, typ, mag = v, types.Uint8, uint64(v)
+	case 1:
+		v := nd.Uint16("v16")
+		cell, typ, mag = v, types.Uint16, uint64(v)
+	case 2:
+		v := nd.Uint32("v32")
+		cell, typ, mag = v, types.Uint32, uint64(v)
+	default:
+		v := nd.Uint64("v64")
+		cell, typ, mag = v, types.Uint64, v
+	}
+	e := NewUnaryMinus(NewGetField(0, typ, "x", false))
+	res, err := e.Eval(nil, sql.Row{cell})
+	nd.Reach("c25.neg.unsigned")
+	if err != nil {
+		nd.Assert("c25.neg.unsigned.no-spurious-error", mag > 1<<63)
+		return
+	}
+	// the result as a signed 64-bit number, whatever signed Go kind carries it
+	var got int64
+	switch r := res.(type) {
+	case int8:
+		got = int64(r)
+	case int16:
+		got = int64(r)
+	case int32:
+		got = int64(r)
+	case int64:
+		got = r
+	case int:
+		got = int64(r)
+	default:
+		nd.Assert("c25.neg.unsigned.kind", false)
+		return
+	}
+	exact := nd.And(mag <= 1<<63, uint64(-got) == mag)
+	id := [...]string{"c25.neg.unsigned.exact.uint8-negated-in-int8", "c25.neg.unsigned.exact.uint16-negated-in-int16", "c25.neg.unsigned.exact.uint32-negated-in-int32", "c25.neg.unsigned.exact.uint64-negated-in-int64"}[k]
+	nd.Assert(id, exact)
+}
